@@ -8,8 +8,9 @@
 Per accepted instruction: (1) llvm-mc must read the bytes as exactly one instruction that consumes all of them, (2) the operands it
 prints must be the operands that were written (registers by class/number/width, memory by base/index/scale/displacement, immediates
 modulo the slot size; compared as multisets first, order second), (3) the mnemonic must be the written one or an alias of it (ALIASES,
-every pair with a reason).  Everything else is classified: harness normalisation (IMPLICIT / rules below), alias, or suspect (SUSPECTS
-describes the ones that were examined by hand; unexplained differences are listed under `unexplained`).
+every pair with a reason).  Everything else is classified: (a) harness normalisation (RULES, implied(), GPR_WIDTH_FREE), (b) alias (ALIASES,
+canon_mnemonic, canon_cc), (c) suspect (SUSPECTS: every group was examined by hand against the table, compiler.rs and the SDM / APM encoding);
+differences that none of these explain are listed under `unexplained`.
 
 Which entry a line exercises: the x64 matcher takes the first table entry of the mnemonic whose format string matches, so a line written
 for entry E may be taken by an earlier entry.  `select()` is a transcription of `match_format_string`; every instantiation is attributed
@@ -50,7 +51,7 @@ def flag(e, name):
 
 
 def flag_names(e):
-    return [n for n, b in FLAGS.items() if e["flags"] & b]
+    return [("PREF_66" if n == "WORD_SIZE" and e["flags"] & 3 else n) for n, b in FLAGS.items() if e["flags"] & b]
 
 
 def feature_names(e):
@@ -160,10 +161,10 @@ def regs_of(code, size, mode):
         out = [reg("xmm", n, size, mode) for n in range(16)] if size in (16, 32) else []
     elif code == "s":
         out = [reg("segment", n, 2, mode) for n in range(6)]
-    elif code == "c":
-        out = [reg("control", n, 0, mode) for n in range(16)]
-    elif code == "d":
-        out = [reg("debug", n, 0, mode) for n in range(16)]
+    elif code in "cd":        # control / debug registers have the mode's natural size: `cd` only matches in protected, `cq` only in long mode
+        if size != (8 if mode == "x64" else 4):
+            return []
+        out = [reg("control" if code == "c" else "debug", n, 0, mode) for n in range(16)]
     elif code == "b":
         out = [reg("bound", n, 16, mode) for n in range(4)]
     return [r for r in out if r is not None]
@@ -345,26 +346,34 @@ DEFAULT_REG = [1, 2, 3, 0]
 
 class Inst:
     """one instantiation: entry = the table entry it was generated for, sel / sel_entry = the entry the matcher takes for the line"""
-    __slots__ = ("entry", "mode", "ops", "line", "sel", "sel_entry", "ans", "bytes", "status", "dis", "res", "wait")
+    __slots__ = ("entry", "mode", "ops", "line", "sel", "sel_entry", "ans", "bytes", "status", "dis", "res", "wait", "gen")
 
     def __init__(self, entry, mode, ops):
         self.entry, self.mode, self.ops = entry, mode, ops
         self.line = entry["m"] + (" " + ", ".join(o.text for o in ops) if ops else "")
         self.sel = self.sel_entry = self.ans = self.bytes = self.status = self.dis = self.res = None
         self.wait = False
+        self.gen = [key_of(entry)]
 
     def request(self):
         return f"cl ; .arch {self.mode} ; {self.line}"
 
 
 def op_sizes(e, mode):
-    """the operand sizes (bytes) to give the `*` slots of an entry"""
+    """the operand sizes (bytes) to give the `*` slots of an entry: an int, or {"g": n, "v": m} when general and vector `*` slots are mixed
+    (their size domains are disjoint, size_operands then reports "Conflicting operand sizes": such an entry cannot be used at all)"""
     sl = slots(e)
     stars = [c for (c, s) in sl if s == "*" and c not in "io"]
     if not stars:
         return [None]
-    if any(c in "ywkl" for c in stars):
+    vec = [c for c in stars if c in "ywkl"]
+    gen = [c for c in stars if c in "rv" or "A" <= c <= "P"]
+    if vec and gen:
+        return [{"g": g, "v": v} for g in ((4, 8) if mode == "x64" else (4,)) for v in (16, 32)]
+    if vec:
         return [16, 32]
+    if flag(e, "AUTO_VEXL"):           # only `m*`: every size keyword matches; 8 is kept as a probe of what happens with a size AUTO_VEXL cannot use
+        return [8, 16, 32]
     if flag(e, "AUTO_REXW"):
         opts = [4, 8]
     elif flag(e, "AUTO_NO32"):
@@ -376,6 +385,8 @@ def op_sizes(e, mode):
 
 def slot_alternatives(e, j, code, fs, opsize, mode):
     """(default operand, all operands to sweep) for slot j; (None, []) if the mode cannot express the slot"""
+    if isinstance(opsize, dict):
+        opsize = opsize["v" if code in "ywkl" else "g"]
     size = SIZE[fs] if fs in SIZE else (opsize if fs == "*" else None)
     if "A" <= code <= "P":
         r = reg("legacy", ord(code) - 65, size, mode)
@@ -384,7 +395,7 @@ def slot_alternatives(e, j, code, fs, opsize, mode):
         r = reg("segment", ord(code) - ord("Q"), 2, mode).as_fixed()
         return r, [r]
     if code == "W":
-        r = reg("control", 8, 0, mode)
+        r = reg("control", 8, 0, mode) if size == (8 if mode == "x64" else 4) else None
         return (r.as_fixed(), [r.as_fixed()]) if r else (None, [])
     if code == "X":
         r = reg("fp", 0, 10, mode).as_fixed()
@@ -701,7 +712,6 @@ ALIASES = {
     ("popfw", "popf"): "llvm prints the 66-prefixed 16-bit form as plain popf", ("pushfw", "pushf"): "llvm prints the 66-prefixed 16-bit form as plain pushf",
     ("popa", "popaw"): "dynasm's popa is the 16-bit form (66 61), llvm calls it popaw", ("popad", "popal"): "llvm's (AT&T-derived) name of the 32-bit form",
     ("pusha", "pushaw"): "dynasm's pusha is the 16-bit form (66 60), llvm calls it pushaw", ("pushad", "pushal"): "llvm's (AT&T-derived) name of the 32-bit form",
-    ("jecxz", "jcxz"): "protected mode: dynasm's jecxz entry carries PREF_67, which selects CX there (see suspects: jecxz/jrcxz in x86 mode)",
     ("jrcxz", "jecxz"): "protected mode: E3 without prefix tests ECX; dynasm accepts the spelling jrcxz for it",
     ("lgdt", "lgdtd"): "llvm names the operand size in 32-bit mode", ("lidt", "lidtd"): "llvm names the operand size in 32-bit mode",
     ("sgdt", "sgdtd"): "llvm names the operand size in 32-bit mode", ("sidt", "sidtd"): "llvm names the operand size in 32-bit mode",
@@ -760,15 +770,18 @@ RULES = {
 }
 # llvm mnemonic (regex) → why the printed width of a general register is not the written one although the encoding is the written instruction
 GPR_WIDTH_FREE = [
-    (r"v?pextr[bwd]|v?extractps|v?movmskp[sd]|v?pmovmskb", "destination printed as r32; with REX.W / a 64-bit name written the same register is written (upper half zero)"),
-    (r"v?pinsr[bw]", "source register printed as r32; only its low 8/16 bits are read"),
-    (r"lar|lsl", "source selector printed as r16"),
-    (r"mov", "mov r, sreg: 8C /r, llvm prints the 32-bit name when there is no 66 prefix"),
-    (r"call|jmp", "66 FF /2, /4 in long mode: operand size of near branches is fixed to 64 bits on Intel (llvm prints the 64-bit name), 16 bits on AMD; dynasm accepts the 16-bit register (AUTO_NO32)"),
-    (r"str|sldt|smsw", "llvm's spelling of the register form"),
-    (r"v?cvtsi2s[sd]|v?cvtt?s[sd]2si", ""),
-    (r"bnd\w+", ""),
+    (r"v?pextr[bwd]|v?extractps|v?movmskp[sd]|v?pmovmskb", lambda lops, widths, it: all(b == 32 for (_, a, b) in widths),
+     "destination printed as r32; with REX.W / a 64-bit name written the same register is written (upper half zero)"),
+    (r"v?pinsr[bw]", lambda lops, widths, it: all(b == 32 and a in (8, 16) for (_, a, b) in widths), "source register printed as r32; only its low 8/16 bits are read"),
+    (r"lar|lsl", lambda lops, widths, it: all(b == 16 for (_, a, b) in widths), "source selector printed as r16 whatever the operand size"),
+    (r"mov", lambda lops, widths, it: any(l[0] == "reg" and l[1] == "seg" for l in lops) and all(a == 16 and b == 32 for (_, a, b) in widths),
+     "mov r/m16, sreg / mov sreg, r/m16 without 66 prefix (dynasm never emits one for the 16-bit register forms): llvm prints the 32-bit name"),
+    (r"call|jmp", lambda lops, widths, it: it.mode == "x64" and all(a == 16 and b == 64 for (_, a, b) in widths),
+     "66 FF /2, /4 in long mode: the operand size of near branches is fixed to 64 bits on Intel (llvm prints the 64-bit name) and is 16 bits on AMD; "
+     "dynasm accepts the 16-bit register (AUTO_NO32) and emits the prefix"),
 ]
+GPR_WIDTH_FREE.append((r"lwpins|lwpval", lambda lops, widths, it: all(a == 64 and b == 32 for (_, a, b) in widths),
+                       "LWPINS / LWPVAL reg64, reg/mem32, imm32: the r/m operand is 32 bits whatever XOP.W says; dynasm's r*v*id format wants both registers the same size"))
 ORDER_FREE = r"test|xchg"
 
 
@@ -881,7 +894,7 @@ def compare(it):
         res["kinds"].add("operands")
         res["diff"] = {"written_not_printed": [fmt_norm(o) for o in hard], "printed_not_written": [fmt_norm(l) for l in extra]}
     if widths:
-        if all(c in ("g", "gh") for (c, _, _) in widths) and any(re.fullmatch(rx, lbase) for (rx, _) in GPR_WIDTH_FREE):
+        if all(c == "g" for (c, _, _) in widths) and any(re.fullmatch(rx, lbase) and cond(lops, widths, it) for (rx, cond, _) in GPR_WIDTH_FREE):
             res["rules"].add("gpr-width")
         else:
             res["kinds"].add("vec-width" if any(c == "x" for (c, _, _) in widths) else "gpr-width")
@@ -918,7 +931,117 @@ def _S(sid, title, mn, args, kinds, why, right, severity="wrong-code", mode=None
     return dict(id=sid, title=title, mn=mn, args=args, kinds=set(kinds), why=why, right=right, severity=severity, mode=mode)
 
 
-SUSPECTS = []
+FMA3_PD = r"vfn?m(add|sub|addsub|subadd)(123|132|213|231|312|321)pd"
+FMA4_P = r"vfn?m(add|sub|addsub|subadd)p[sd]"
+SUSPECTS = [
+    _S("jmp-far-ptr16-opcode", "jmp / jmpf ptr16:16 is encoded with the far CALL opcode 9A", r"jmp|jmpf", r"iwiw", ["mnemonic"],
+       "table: `jmp`/`jmpf` b\"iwiw\" has opcode [0x9A] (copied from call/callf); llvm reads `lcall seg, off`. The 32-bit form b\"idiw\" correctly uses 0xEA.",
+       "JMP ptr16:16 is 66 EA cw cw (SDM: EA cd / EA cp); 9A is CALL ptr16:16", mode="x86"),
+    _S("fma3-pd-missing-vex-w", "all packed-double FMA3 mnemonics are encoded as their packed-single twin (VEX.W = 0)", FMA3_PD, r"y\*y\*w\*", ["mnemonic"],
+       "the 36 `vf[n]m{add,sub,addsub,subadd}{123,132,213,231,312,321}pd` entries have the same opcode and flags as the ps entries (no WITH_REXW); "
+       "llvm reads every one as the ...ps instruction. The scalar sd entries do carry WITH_REXW.",
+       "VFMADD132PD etc. are VEX.66.0F38.W1 98/A8/B8.. /r (W0 = PS)"),
+    _S("gather-missing-vex-w", "vgatherdpd / vgatherqpd / vpgatherdq / vpgatherqq are encoded as the dword-element gathers (VEX.W = 0)",
+       r"vgatherdpd|vgatherqpd|vpgatherdq|vpgatherqq", r".*", ["mnemonic", "operands", "vec-width"],
+       "no WITH_REXW in the four entries: llvm reads vgatherdps / vgatherqps / vpgatherdd / vpgatherqd; for the q-index forms the ymm destination/mask "
+       "even become xmm, for the d-index ymm forms the xmm index becomes ymm",
+       "VGATHERDPD/QPD = VEX.66.0F38.W1 92/93 /r, VPGATHERDQ/QQ = VEX.66.0F38.W1 90/91 /r"),
+    _S("vpmaskmovq-missing-vex-w", "vpmaskmovq is encoded as vpmaskmovd (VEX.W = 0)", r"vpmaskmovq", r".*", ["mnemonic"],
+       "both vpmaskmovq entries are identical to vpmaskmovd's", "VPMASKMOVQ = VEX.66.0F38.W1 8C /r (load), 8E /r (store)"),
+    _S("vex-rvmi-enc-mr", "VEX `op dst, src1, src2/m, imm8` entries flagged ENC_MR: sources exchanged, a memory source is dropped",
+       r"vblendpd|vblendps|vdpps|vmpsadbw|vpalignr|vpblendd|vpblendw|vshufpd|vshufps|vcmppd|vcmpps", r"y\*y\*w\*ib", ["order", "operands"],
+       "with ENC_MR and three register-class operands extract_args takes (reg, rm, vvvv) = (1st, 2nd, 3rd): the second written operand goes to "
+       "ModRM.rm and the third to VEX.vvvv. All-register lines come out as `op dst, src2, src1, imm` (not commutative: blend masks, shuffles, alignr, "
+       "compare predicates). When the third operand is memory it lands in vvvv, which only reads registers: the emitted bytes have vvvv = xmm0, "
+       "rm = second register and no memory operand at all (no SIB, no displacement), without any diagnostic.",
+       "VEX.NDS rvmi: ModRM.reg = dst, VEX.vvvv = src1, ModRM.rm = src2/m — the default (flag-less) order, as used by vdppd / vinsertps / vpclmulqdq"),
+    _S("fma4-xop-4op-missing-w", "FMA4 packed forms and vpcmov with the register/memory operand last: 3rd and 4th operand exchanged (VEX.W/XOP.W = 0)",
+       FMA4_P + r"|vpcmov", r"y\*y\*y\*w\*", ["order", "operands"],
+       "entry b\"y*y*y*w*\" puts the 3rd operand in imm8[7:4] and the 4th in ModRM.rm, which is the W = 1 operand order, but has no WITH_REXW "
+       "(the scalar vfmaddsd/ss, vpperm and vprot* twins have it). Every all-register line is taken by this entry, so `vfmaddpd a, b, c, d` "
+       "computes b*d+c; `vpcmov a, b, c, [m]` is read as `vpcmov a, b, [m], c`.",
+       "VFMADDPD xmm1, xmm2, xmm3, xmm4/m128 = VEX.66.0F3A.W1 69 /r /is4; W0 is xmm1, xmm2, xmm3/m128, xmm4. VPCMOV likewise XOP.W1 A2"),
+    _S("mov-to-sreg-opcode", "mov sreg, r/m16 is encoded with opcode 8C (mov r/m16, sreg): the direction is reversed", r"mov", r"swmw|swrw", ["order", "operands", "gpr-width"],
+       "entries b\"swmw\" and b\"swrw\" have opcode [0x8C] like the store forms; `mov ds, ax` emits 8C D8 = `mov eax, ds`, `mov es, [m]` stores es to memory",
+       "MOV Sreg, r/m16 = 8E /r"),
+    _S("inc-dec-r16-short-form", "protected mode: inc / dec r16 (short form 40+r / 48+r) lacks the operand-size prefix", r"inc|dec", r"r\*", ["gpr-width"],
+       "entry b\"r*\" [0x40]/[0x48] X86_ONLY | SHORT_ARG has no AUTO_SIZE: `dec cx` emits 49 = `dec ecx`", "DEC r16 = 66 48+rw in 32-bit mode", mode="x86"),
+    _S("out-imm8-ax", "out imm8, ax lacks the operand-size prefix", r"out", r"ibAw", ["gpr-width"],
+       "entry b\"ibAw\" [0xE7] has no WORD_SIZE (the `in ax, imm8`, `out dx, ax` entries have it): `out 5, ax` emits E7 05 = `out 5, eax`", "OUT imm8, AX = 66 E7 ib"),
+    _S("xop-map-0x10", "bextr r, r/m, imm32 (TBM) / lwpins / lwpval use XOP map 0x10 instead of 0x0A", r"bextr|lwpins|lwpval", r"r\*v\*id", ["undecodable", "short", "trailing"],
+       "the first opcode byte of a XOP entry is the map; these three have 0x10 (decimal 10 written as hex). Emitted 8F F0.. has mmmmm = 10000b, an undefined map; "
+       "llvm cannot decode it", "XOP.LZ.0A 10 /r id (BEXTR), XOP.0A 12 /0 id (LWPINS), 12 /1 id (LWPVAL): byte 1 = RXB.01010"),
+    _S("movabs-protected-mode", "protected mode: movabs emits a 64-bit address after A0..A3", r"movabs", r".*", ["trailing", "undecodable", "short"],
+       "movabs is accepted under `.arch x86` and emits opcode + 8 address bytes; in 32-bit mode moffs is 32 bits, so the upper four bytes are executed as the next instruction(s)",
+       "reject in protected mode, or emit moffs32", severity="wrong-code (x86 mode)", mode="x86"),
+    _S("missing-auto-vexl", "ymm operands accepted but VEX.L = 0 emitted (entry has `*` sizes but no AUTO_VEXL)", r"vbroadcastss|vcmpeq_ospd|vpsrlq", r"y\*md|y\*y\*w\*|y\*y\*ib", ["vec-width"],
+       "vbroadcastss b\"y*md\", vcmpeq_ospd b\"y*y*w*\", vpsrlq b\"y*y*ib\" lack AUTO_VEXL that their sibling entries have: the ymm line encodes the xmm instruction "
+       "(upper lane zeroed instead of computed)", "VEX.256 forms need L = 1"),
+    _S("rex-before-wait", "fsave / fstcw / fstenv / fstsw with r8-r15 in the address: REX is emitted before the 9B (wait) byte and is lost",
+       r"fsave|fstcw|fstenv|fstsw", r"m.", ["operands", "trailing"],
+       "the 9B of these entries is part of the opcode bytes, the REX prefix is pushed in front of it: 43 9B DD B4 4D.. = `wait` (REX ignored) + `fnsave [rbp + 2*rcx - 300]` "
+       "for `fsave [r13 + r9*2 - 300]`: the wrong memory is written", "9B REX DD /6 (REX must immediately precede the opcode)", mode="x64"),
+    _S("high-byte-in-pinsrb", "pinsrb / vpinsrb accept ah/ch/dh/bh and encode spl/bpl/sil/dil's register number", r"v?pinsrb", r".*vbib", ["operands"],
+       "slot `vb` takes HIGHBYTE registers; PINSRB reads r32/m8, so rm = 4..7 means esp..edi (low byte): `pinsrb xmm1, ah, 7` inserts spl", "reject high-byte registers here",
+       severity="wrong-code (unusual input)"),
+    _S("m-star-vexl-panic", "vcvtpd2dq / vcvtpd2ps / vcvttpd2dq xmm, m*: a memory size other than OWORD/YWORD panics the macro", r"vcvtt?pd2(dq|ps)", r"yom\*", ["panic"],
+       "`m*` accepts every size keyword; AUTO_VEXL then hits panic!(\"bad formatting data\") for WORD/DWORD/QWORD [..]", "reject with a diagnostic", severity="panic"),
+    _S("jecxz-protected-mode", "protected mode: jecxz is emitted with a 67 prefix, which makes it jcxz (tests CX)", r"jecxz", r"ob", ["mnemonic"],
+       "entry `jecxz` b\"ob\" [0xE3] carries PREF_67 unconditionally: right in long mode (67 selects ECX instead of RCX), wrong under `.arch x86` where the "
+       "address size is already 32 bits and 67 selects CX. `jrcxz` (no prefix) is also accepted in protected mode, where it is what jecxz should be.",
+       "JECXZ rel8 = E3 cb without prefix in 32-bit mode", mode="x86"),
+    _S("long-mode-only-in-x86", "protected mode accepts instructions that only exist in 64-bit mode", r"(rd|wr)[fg]sbase", r".*", ["undecodable"],
+       "rdfsbase/rdgsbase/wrfsbase/wrgsbase r32 are accepted under `.arch x86`; F3 0F AE /0../3 is #UD outside 64-bit mode (llvm-mc i386 refuses to decode)",
+       "reject in protected mode", severity="accepts-invalid", mode="x86"),
+]
+
+
+# suspect id → [(mode, dynasm line, the same instruction in llvm's Intel syntax)]: llvm-mc as *assembler* gives the bytes the line should have
+CONFIRM = {
+    "fma3-pd-missing-vex-w": [("x64", "vfmadd132pd xmm1, xmm2, xmm3", "vfmadd132pd xmm1, xmm2, xmm3")],
+    "gather-missing-vex-w": [("x64", "vgatherdpd xmm1, [rbx + xmm4*2], xmm3", "vgatherdpd xmm1, xmmword ptr [rbx + 2*xmm4], xmm3"),
+                             ("x64", "vpgatherqq ymm1, [rbx + ymm4*2], ymm3", "vpgatherqq ymm1, ymmword ptr [rbx + 2*ymm4], ymm3")],
+    "vpmaskmovq-missing-vex-w": [("x64", "vpmaskmovq xmm1, xmm2, OWORD [rax]", "vpmaskmovq xmm1, xmm2, xmmword ptr [rax]")],
+    "vex-rvmi-enc-mr": [("x64", "vblendpd xmm1, xmm2, xmm3, 9", "vblendpd xmm1, xmm2, xmm3, 9"),
+                        ("x64", "vblendpd xmm1, xmm2, OWORD [rax], 9", "vblendpd xmm1, xmm2, xmmword ptr [rax], 9"),
+                        ("x64", "vcmppd xmm1, xmm2, xmm3, 1", "vcmppd xmm1, xmm2, xmm3, 1"),
+                        ("x64", "vpalignr ymm1, ymm2, ymm3, 4", "vpalignr ymm1, ymm2, ymm3, 4")],
+    "fma4-xop-4op-missing-w": [("x64", "vfmaddpd xmm1, xmm2, xmm3, xmm0", "vfmaddpd xmm1, xmm2, xmm3, xmm0"),
+                               ("x64", "vfmaddpd xmm1, xmm2, xmm3, OWORD [rax]", "vfmaddpd xmm1, xmm2, xmm3, xmmword ptr [rax]"),
+                               ("x64", "vpcmov xmm1, xmm2, xmm3, OWORD [rax]", "vpcmov xmm1, xmm2, xmm3, xmmword ptr [rax]")],
+    "mov-to-sreg-opcode": [("x64", "mov ds, ax", "mov ds, ax"), ("x64", "mov es, WORD [rax]", "mov es, word ptr [rax]")],
+    "inc-dec-r16-short-form": [("x86", "dec cx", "dec cx")],
+    "out-imm8-ax": [("x64", "out 5, ax", "out 5, ax")],
+    "xop-map-0x10": [("x64", "bextr ecx, edx, 7", "bextr ecx, edx, 7"), ("x64", "lwpins ecx, edx, 7", "lwpins ecx, edx, 7")],
+    "missing-auto-vexl": [("x64", "vbroadcastss ymm1, DWORD [rax]", "vbroadcastss ymm1, dword ptr [rax]"), ("x64", "vpsrlq ymm1, ymm2, 7", "vpsrlq ymm1, ymm2, 7"),
+                          ("x64", "vcmpeq_ospd ymm1, ymm2, ymm3", "vcmppd ymm1, ymm2, ymm3, 16")],
+    "rex-before-wait": [("x64", "fsave [r13 + r9*2 - 300]", "fsave [r13 + 2*r9 - 300]")],
+    "unusable-mixed-wildcards": [("x64", "vmovmskpd eax, xmm1", "vmovmskpd eax, xmm1")],
+}
+
+
+def assemble(mode, line):
+    """bytes llvm-mc (as assembler, Intel syntax) gives a line; None if it does not assemble"""
+    p = subprocess.run([LLVM_MC, "-triple=" + ("x86_64" if mode == "x64" else "i386"), "-x86-asm-syntax=intel", "-show-encoding", "-mattr=" + MATTR],
+                       input=line + "\n", stdout=subprocess.PIPE, stderr=subprocess.PIPE, text=True)
+    enc = re.findall(r"encoding: \[([^\]]*)\]", p.stdout)
+    if not enc or p.stderr.strip():
+        return None
+    return b"".join(bytes(int(x, 16) for x in e.split(",")) for e in enc)
+
+
+def confirmations(sid):
+    out = []
+    rows = CONFIRM.get(sid, [])
+    if not rows:
+        return out
+    answers = plug([f"cl ; .arch {mode} ; {dl}" for (mode, dl, _) in rows])
+    for (mode, dl, ll), a in zip(rows, answers):
+        st, b = answer_bytes(a)
+        ref = assemble(mode, ll)
+        out.append({"mode": mode, "dynasm_line": dl, "dynasm_emits": b.hex() if st == "ok" else f"{st}: {str(b)[:100]}",
+                    "llvm_mc_assembles_the_same_instruction_to": ref.hex() if ref else None})
+    return out
 
 
 def suspect_of(it, kinds):
@@ -980,6 +1103,7 @@ def collect(limit=None, log=lambda *a: None):
             for it in instances(e, mode):
                 per_entry[key_of(e)] += 1
                 if (mode, it.line) in seen:
+                    seen[(mode, it.line)].gen.append(key_of(e))
                     continue
                 seen[(mode, it.line)] = it
                 it.sel = select(e["m"], it.ops, mode)
@@ -1035,6 +1159,7 @@ def run(limit=None, verbose=False):
     order_notes = collections.OrderedDict()
     exercised, accepted_entries = set(), set()
     model_bad = []
+    per_entry_stat = collections.defaultdict(collections.Counter)
     for it in insts:
         cnt["instantiations"] += 1
         per_mode[it.mode]["instantiations"] += 1
@@ -1073,6 +1198,7 @@ def run(limit=None, verbose=False):
                 k = key_of(e)
                 memsize.setdefault(k, dict(entry=describe(e), written_bytes=r["memsize"][0], llvm_bytes=r["memsize"][1], count=0, example=example(it)))["count"] += 1
             if not r["kinds"]:
+                per_entry_stat[key_of(e)]["equal"] += 1
                 if r["alias"]:
                     cnt["mnemonic_alias_equal"] += 1
                     a = alias_tab[(e["m"], r["lm"], r["alias"])]
@@ -1095,9 +1221,11 @@ def run(limit=None, verbose=False):
             if e is None:
                 continue
         s = suspect_of(it, kinds)
+        per_entry_stat[key_of(e)]["suspect:" + s["id"] if s else "/".join(sorted(kinds))] += 1
         if s:
-            d = susp.setdefault(s["id"], {"count": 0, "entries": collections.OrderedDict(), "examples": [], "kinds": collections.Counter()})
+            d = susp.setdefault(s["id"], {"count": 0, "entries": collections.OrderedDict(), "by_kind": collections.OrderedDict(), "kinds": collections.Counter()})
             d["count"] += 1
+            d["by_kind"].setdefault("+".join(sorted(kinds)) + "/" + it.mode, example(it))
             for kd in kinds:
                 d["kinds"][kd] += 1
             if key_of(e) not in d["entries"]:
@@ -1117,7 +1245,25 @@ def run(limit=None, verbose=False):
             cnt["unexplained"] += 1
     # entries
     all_keys = [key_of(e) for e in entries]
-    never_accepted = [k for k in all_keys if k not in accepted_entries]
+    never_accepted = []
+    by_gen = collections.defaultdict(list)
+    for it in insts:
+        for g in it.gen:
+            by_gen[g].append(it)
+    for e in entries:
+        k = key_of(e)
+        if k in accepted_entries:
+            continue
+        its = by_gen.get(k, [])
+        taken_by = collections.Counter(key_of(it.sel_entry) for it in its if it.sel_entry is not None and key_of(it.sel_entry) != k)
+        rej = collections.Counter(re.sub(r"^reject ", "", str(it.bytes))[:100] for it in its if it.sel_entry is not None and key_of(it.sel_entry) == k and it.status in ("reject", "panic"))
+        if not its:
+            why = "not instantiable: the slot sizes contradict the register sizes of both modes (e.g. 32-bit cr8, 32-bit control registers in long mode)"
+        elif rej:
+            why = "every instantiation is rejected by the plugin: " + "; ".join(f"{m} ({n}x)" for m, n in rej.most_common(3))
+        else:
+            why = "shadowed: its lines are taken by the earlier entr" + ("y " if len(taken_by) == 1 else "ies ") + ", ".join(taken_by)
+        never_accepted.append({"entry": describe(e), "instantiations": len(its), "why": why})
     rep = collections.OrderedDict()
     rep["what"] = "dynasm-rs x86/x64 table: bytes emitted by the plugin, read back by llvm-mc 14 --disassemble (lib/x64sweep.py)"
     rep["wall_s"] = round(time.time() - t0, 1)
@@ -1146,8 +1292,10 @@ def run(limit=None, verbose=False):
     rep["undecodable_per_feature"] = {f: {"instantiations": u["instantiations"], "entries": len(u["entries"]), "entry_list": sorted(u["entries"]), "examples": u["examples"]}
                                       for f, u in sorted(undec.items())}
     rep["aliases"] = [{"dynasm": d, "llvm": l, "reason": why, "count": a["count"], "example": a["example"]} for (d, l, why), a in sorted(alias_tab.items())]
+    rule_cnt["cyrix-foreign"] = cnt.get("foreign", 0)
+    rule_cnt["fma3-order-names"] = sum(a["count"] for (d, l, why), a in alias_tab.items() if why.startswith("FMA3"))
     rep["normalisation_rules"] = [{"id": k, "rule": v, "used": rule_cnt.get(k, 0)} for k, v in RULES.items() if v]
-    rep["gpr_width_free"] = [{"llvm_mnemonic": rx, "reason": why} for rx, why in GPR_WIDTH_FREE if why]
+    rep["gpr_width_free"] = [{"llvm_mnemonic": rx, "reason": why} for rx, _, why in GPR_WIDTH_FREE]
     rep["rejections"] = [{"reason": k, "count": v, "example": reject_ex[k]} for k, v in rejects.most_common()]
     out = []
     for s in SUSPECTS:
@@ -1155,9 +1303,46 @@ def run(limit=None, verbose=False):
         if not d:
             continue
         out.append({"id": s["id"], "title": s["title"], "severity": s["severity"], "instantiations": d["count"], "kinds": dict(d["kinds"]),
-                    "entries": list(d["entries"].keys()), "why": s["why"], "right": s["right"], "evidence": list(d["entries"].values())[:6]})
+                    "entries": list(d["entries"].keys()), "why": s["why"], "right": s["right"], "evidence": list(d["entries"].values())[:6],
+                    "evidence_per_kind_and_mode": d["by_kind"],
+                    "assembler_cross_check": confirmations(s["id"])})
+    unusable = [n for n in never_accepted if n["why"].startswith("every instantiation is rejected")]
+    if unusable:
+        out.append({"id": "unusable-mixed-wildcards", "title": "entries whose general-register and vector operands are both `*`: every operand combination is rejected",
+                    "severity": "rejects-valid", "instantiations": sum(n["instantiations"] for n in unusable), "kinds": {"rejected": sum(n["instantiations"] for n in unusable)},
+                    "entries": [f"{n['entry']['mnemonic']}#{n['entry']['index']}" for n in unusable],
+                    "why": "b\"r*y*\": size_operands demands one common size for all `*` operands, but r* is 4/8 bytes and y* 16/32: `vmovmskpd eax, xmm1` etc. always fail with "
+                           "\"Conflicting operand sizes\"; these mnemonics have no other entry, so they cannot be assembled at all",
+                    "right": "b\"r*yo\" / b\"r*yh\" (+ WITH_VEXL) as for movmskpd, or exclude the general register from the size computation",
+                    "evidence": [{"entry": f"{n['entry']['mnemonic']}#{n['entry']['index']}", "why": n["why"]} for n in unusable],
+                    "assembler_cross_check": confirmations("unusable-mixed-wildcards")})
     rep["suspects"] = out
-    rep["memory_size_labels"] = list(memsize.values())
+    spots = [("i", "gather instructions and VEX.W", r"vp?gather[dq](ps|pd|d|q)"),
+             ("iii", "pextrw / vpextrw forms", r"v?pextrw"),
+             ("iv", "4th register in the immediate byte (is4): vblendv*, vpblendvb, FMA4, vpcmov, vpperm", r"vblendvp[sd]|vpblendvb|vpcmov|vpperm|vfn?m(add|sub|addsub|subadd)[ps][sd]")]
+    rep["spot_checks"] = []
+    for (tag, title, rx) in spots:
+        rows = []
+        for e in entries:
+            if re.fullmatch(rx, e["m"]):
+                st = per_entry_stat.get(key_of(e), {})
+                rows.append({"entry": key_of(e), "args": e["args"], "ops": e["ops"], "flags": flag_names(e), "results": dict(st) or "never taken (see entries_never_taken)"})
+        bad = sorted({k for r in rows if isinstance(r["results"], dict) for k in r["results"] if k != "equal"})
+        rep["spot_checks"].append({"spot": tag, "title": title, "entries": rows,
+                                   "conclusion": ("every taken entry reads back as written" if not bad else "differences: " + ", ".join(bad))})
+    rep["spot_checks"].append({"spot": "ii", "title": "dynamic registers", "conclusion": "out of scope: only static register names are instantiated"})
+    groups = collections.OrderedDict()
+    for k, m in memsize.items():
+        g = groups.setdefault((m["written_bytes"], m["llvm_bytes"]), {"dynasm_demands": KEYWORD[m["written_bytes"]], "llvm_reads_bytes": m["llvm_bytes"], "instantiations": 0,
+                                                                     "entries": [], "example": m["example"]})
+        g["instantiations"] += m["count"]
+        g["entries"].append(f"{k} {m['entry']['args']}")
+    rep["memory_size_labels"] = {
+        "note": "the size letter of a memory slot is the size keyword dynasm demands (or assumes) in the source; llvm names the size the instruction accesses. "
+                "The emitted bytes do not depend on it, so these are label errors of the table (`blendvpd xmm1, QWORD [rax]` is accepted, `OWORD [rax]` is rejected), "
+                "except where llvm's own convention differs (prefetch: byte, punpckl* mm: dword as in the SDM's mm/m32, call/jmp WORD [m] in long mode). "
+                "Not counted as operand differences.",
+        "entries": sum(len(g["entries"]) for g in groups.values()), "groups": list(groups.values())}
     rep["unexplained"] = list(unexplained.values())
     rep["entries_never_taken"] = never_accepted
     rep["matcher_model_disagreements"] = model_bad[:50]
